@@ -1220,7 +1220,13 @@ class Converter:
         )
         if isinstance(if_outputs, ir.Value):
             if_outputs = [if_outputs]
-        for x, y in zip(live_defs, if_outputs):
+        for i, (x, y) in enumerate(zip(live_defs, if_outputs)):
+            # A Python constant in both branches is still a constant to be promoted
+            # to the type of the other operand (as in eager mode).
+            if self._is_castable(then_graph.outputs[i].name) and self._is_castable(
+                else_graph.outputs[i].name
+            ):
+                self._castable.add(y.name)
             self._bind(
                 x,
                 values.SymbolValue(y, self._source_of(stmt)),
